@@ -1,4 +1,4 @@
 From Coq Require Import Extraction ExtrOcamlBasic.
-From PV Require Import Base.Bytes Base.Outcome Base.DrvBase Spec.Templates Model.Solve.
+From PV Require Import Base.Bytes Base.Outcome Base.DrvBase Spec.Templates Model.Solve Model.SolveKeychain.
 Extraction "../ml/c05.ml" drv_base sign_tx build_hash160_lookup eval_input script_pubkey parse_sig_ok strict_der low_s
-  defined_hashtype parse_pushes LAX STD mkFlags mkPuzzle.
+  defined_hashtype parse_pushes LAX STD mkFlags mkPuzzle kc_run kc_fresh_get kc_empty.
